@@ -182,7 +182,7 @@ func isScalarArray(t types.Type) (*types.Array, bool) {
 		return nil, false
 	}
 	switch a.Elem().Underlying().(type) {
-	case *types.Basic, *types.Pointer, *types.Interface:
+	case *types.Basic, *types.Pointer, *types.Interface, *types.Signature, *types.Map, *types.Chan:
 		return a, true
 	}
 	return nil, false
